@@ -544,20 +544,25 @@ def _routes(ctx):
     Q = 'beartype._check.convert._convcoerce'
     m = repo.mod(Q)
     fn = repo.find_def(Q, 'coerce_func_hint_root')
-    first = None
-    for st in fn.body:
-        if isinstance(st, ast.Expr) and isinstance(st.value, ast.Constant):
-            continue
-        if isinstance(st, ast.Assert):
-            continue
-        first = st
-        break
-    ok = isinstance(first, ast.If) and any(isinstance(c, ast.Call) and dotted(c.func) == 'isinstance' and dotted(c.args[0]) == 'hint'
-                                             and 'str' in norm(c.args[1]) for c in ast.walk(first.test)) \
-        and any(isinstance(a, ast.Assign) and dotted(a.targets[0]) == 'hint' and isinstance(a.value, ast.Call)
-                and 'resolve_hint_pep484_ref_str' in dotted(a.value.func) for a in first.body)
-    ctx.ob('C07.R6', 'route:decorator-root:string-resolved-first', m.where(first or fn),
-           'the first statement that looks at the root hint resolves it when it is a string', ok, norm(first)[:120] if first else 'no statement')
+    def resolves_string(st):
+        return isinstance(st, ast.If) and any(
+            isinstance(c, ast.Call) and dotted(c.func) == 'isinstance' and c.args and dotted(c.args[0]) == 'hint' and 'str' in norm(c.args[1])
+            for c in ast.walk(st.test)) and any(
+            isinstance(a, ast.Assign) and dotted(a.targets[0]) == 'hint' and isinstance(a.value, ast.Call)
+            and 'resolve_hint_pep484_ref_str' in dotted(a.value.func) for a in st.body)
+    idx = next((i for i, st in enumerate(fn.body) if resolves_string(st)), None)
+    earlier = []
+    if idx is not None:
+        for st in fn.body[:idx]:
+            if isinstance(st, ast.Assert) or (isinstance(st, ast.Expr) and isinstance(st.value, ast.Constant)):
+                continue
+            if any(isinstance(x, ast.Name) and x.id == 'hint' for x in ast.walk(st)):
+                earlier.append(st)
+    ctx.ob('C07.R6', 'route:decorator-root:string-resolved-first', m.where(fn.body[idx] if idx is not None else fn),
+           'the root coercer replaces a string hint by the resolver\'s result before any other statement uses the hint',
+           idx is not None and not earlier,
+           'no `if isinstance(hint, str): hint = resolve…` statement' if idx is None else
+           (f'used earlier by `{norm(earlier[0])[:100]}`' if earlier else ''))
     # (b)
     R = 'beartype._check.convert._reduce._pep.pep484.redpep484ref'
     rm = repo.mod(R)
